@@ -23,7 +23,7 @@ EVID = os.path.join(VERIF, "evidence")
 REPLAYS = os.path.join(VERIF, "replays")
 ALLOWED_AXIOMS = {"propext", "Classical.choice", "Quot.sound"}
 DRIVERS = ["drv_hist", "drv_layout", "drv_cmp", "drv_ovf", "drv_serde", "drv_traits", "drv_wm", "drv_mon"]
-HARNESS_BINS = ["hist", "cmp", "ovf", "serdecorr", "uninit", "thinzst"]
+HARNESS_BINS = ["hist", "cmp", "ovf", "serdecorr", "uninit", "thinzst", "cow"]
 OFFLINE_ENV = {"CARGO_NET_OFFLINE": "true", "GOPROXY": "off", "PIP_NO_INDEX": "1"}
 
 TRUSTED_BASE = [
